@@ -112,7 +112,8 @@ class Kinds:
                 content = ()
             for a in content:
                 out |= kd(a)
-            return self._norm(out)
+            # an update of a loop-carried container inside its own cycle adds nothing: let the other sources decide
+            return self._norm(out) if out else frozenset()
         if tag == "slice":
             return k(CONST)
         if tag == "phi":
@@ -134,6 +135,11 @@ class Kinds:
             out = frozenset()
             for e in t[2]:
                 out |= kd(e)
+            return self._norm(out) or k(CONST)
+        if tag == "ucomp":
+            out = frozenset()
+            for _cs, v in t[2]:
+                out |= kd(v)
             return self._norm(out) or k(CONST)
         if tag == "new":
             return k("URL")
